@@ -124,7 +124,7 @@ var cfgC06 = reg(PropCfg{
 		FeeModes: []int{FeeExact, FeeExact, FeeExact, FeeNone, FeeLower, FeeHigher, FeeExactPlusExtraDenom, FeeOnlyExtraDenom, FeeLowerPlusExtraDenom, FeeHigherPlusExtraDenom, FeeFirstModuleOnly, FeeSubset, FeeSubset}, MultiPct: 30, PSameKind: 50, PFeePayer: 8},
 	Rule: "history containing >=1 CheckTx of a tx with >=1 WRKChain/BEACON operation and valid signature/sequence (reaches the fee decorators); distinct by scenario hash",
 	NonTrivial: func(w *World) bool { return w.Classes["c06.feeop-tx-reaching-fee-checks"] > 0 },
-	MinClasses: map[string]int{"c06.admitted-exact": 20, "c06.feemode.6": 5},
+	MinClasses: map[string]int{"c06.admitted-exact": 20, "c06.feemode.6": 5, "c06.recheck-kept": 50, "c06.recheck-evicted-after-fee-change": 3},
 	Assume:     []string{"messages inside a governance proposal are not counted (they do not execute in the submitting transaction)", "payer funds = bank balance + locked eFUND in the mempool (check) state before the CheckTx"},
 })
 
